@@ -3,9 +3,9 @@ package date
 // Independent calendar helpers for the harnesses (no code shared with the implementation or with time).
 
 func refLeap(y int) bool {
-	// proleptic Gregorian; y may be <= 0 (astronomical numbering)
-	m := func(a, b int) int { r := a % b; if r < 0 { r += b }; return r }
-	return (m(y, 4) == 0 && m(y, 100) != 0) || m(y, 400) == 0
+	// proleptic Gregorian; y may be <= 0 (astronomical numbering); shifted by a multiple of 400 to stay unsigned
+	u := uint64(y + 4000000000)
+	return (u%4 == 0 && u%100 != 0) || u%400 == 0
 }
 
 func refDaysIn(y, m int) int {
